@@ -686,6 +686,10 @@ func c16HandSites() []c16Site {
 		{map[string]string{"empty": "", "text": "just text \x00\xff\xc3 é世😀 { } % #", "ws": "a  {{- a -}}  b {%- if t -%} c {%- endif -%} d",
 			"verb": "{% verbatim %}{{ a }}{% endverbatim %}{# gone #}x", "big": big, "esc": "{{ name|e }}{{ name|escape }}{{ name|raw }}{{ name }}"},
 			[]string{"empty", "text", "ws", "verb", "big", "esc"}},
+		// names that differ only by an extension, a repeated extension or the loader's own suffix: each keeps its own file
+		{map[string]string{"card": "<div>{{ name|upper }}</div>", "card.twig": "{% if name %}<section>{{ name }}</section>{% endif %}", "card.twig.twig": "tt {{ a }}",
+			"card.compiled": "cc {{ c }}", "card.html": "<b>{{ a }}</b>", "card.html.twig": "<i>{{ a }}</i>", "mail.txt": "Dear {{ name }},", "Card": "upper-case {{ name }}", "card.": "dot {{ c }}", "card.twig.compiled": "tc {{ b }}"},
+			[]string{"card", "card.twig", "card.twig.twig", "card.compiled", "card.html", "card.html.twig", "mail.txt", "Card", "card.", "card.twig.compiled"}},
 	}
 }
 
